@@ -800,7 +800,8 @@ class VirtualCluster:
     def describe_batch(self, script):
         """what a submission script would run: parsed back from the real files"""
         ds, runsh, _ = jadeenv.parse_submission_script(script)
-        info = {"script": os.path.basename(script), "directives": ds, "index": None, "jobs": [], "group": None, "run": None}
+        info = {"script": os.path.basename(script), "directives": ds, "index": None, "jobs": [], "group": None, "run": None,
+                "commands": len([l for l in _.split("\n")[1:] if l.strip() and not l.startswith("#")])}
         if runsh and os.path.exists(runsh):
             r = jadeenv.parse_run_script(runsh)
             info["run"] = {k: r.get(k) for k in ("output", "distributed", "nproc", "verbose")}
@@ -930,15 +931,24 @@ class VirtualCluster:
     def _start_batch(self, i):
         b = self.hpc[i]
         b["state"] = "RUNNING"
-        ds, runsh, _ = jadeenv.parse_submission_script(b["script"])
-        r = jadeenv.parse_run_script(runsh)
+        ds, runsh, text = jadeenv.parse_submission_script(b["script"])
+        # the node executes every command line of the script, in order (jade writes exactly one: srun <run script>)
+        runs = [jadeenv.parse_run_script(x) for x in re.findall(r"^srun (\S+)$", text, re.M) if os.path.exists(x)]
+        r = runs[0] if runs else jadeenv.parse_run_script(runsh)
         env = dict(self.base_env, SLURM_JOB_ID=str(i), SLURM_NODEID="0", SLURM_CPUS_ON_NODE=str(self.node_cpus),
                    LOCAL_SCRATCH=self.scratch)
         self.trace.append({"k": "batch_start", "p": 0, "id": i, "index": b["index"]})
 
         def fn():
-            rj.run_jobs.callback(config_file=r["config_file"], distributed_submitter=bool(r["distributed"]),
-                                 output=r["output"], num_parallel_processes_per_node=r["nproc"], verbose=False)
+            for q in (runs or [r]):
+                try:
+                    rj.run_jobs.callback(config_file=q["config_file"], distributed_submitter=bool(q["distributed"]),
+                                         output=q["output"], num_parallel_processes_per_node=q["nproc"], verbose=False)
+                except SystemExit as e:
+                    if q is (runs or [r])[-1]:
+                        raise
+                    if e.code not in (0, None):
+                        pass        # bash goes on with the next command line whatever the exit status
         self.spawn("node", fn, host="node%s" % i, env=env, batch=i)
 
     def choices(self):
